@@ -92,6 +92,16 @@ func (gg *ggraph) emit(op string, ins []string, outs []gv, attrs ...*onnx.Attrib
 		names[i] = o.name
 	}
 	n := mkNode(op, ins, names, attrs...)
+	// node names are optional in ONNX: mostly absent, sometimes unique, sometimes equal to the
+	// first output name of an earlier node (names and value names live in different namespaces)
+	switch gg.counter % 7 {
+	case 1:
+		n.Name = fmt.Sprintf("node_%d", len(gg.nodes))
+	case 2:
+		if len(gg.nodes) > 0 && len(gg.nodes[len(gg.nodes)-1].Output) > 0 {
+			n.Name = gg.nodes[len(gg.nodes)-1].Output[0]
+		}
+	}
 	gg.nodes = append(gg.nodes, n)
 	for _, i := range ins {
 		if i != "" {
@@ -632,7 +642,7 @@ func tConv(gg *ggraph, rt *rapid.T) bool {
 	sp := len(x.shape) - 2
 	c := x.shape[1]
 	m := rapid.IntRange(1, 3).Draw(rt, "convM")
-	ks, strides, pads := make([]int, sp), make([]int, sp), make([]int, 2*sp)
+	ks, strides, pads, dils := make([]int, sp), make([]int, sp), make([]int, 2*sp), make([]int, sp)
 	out := []int{x.shape[0], m}
 	for a := 0; a < sp; a++ {
 		in := x.shape[2+a]
@@ -642,7 +652,11 @@ func tConv(gg *ggraph, rt *rapid.T) bool {
 		}
 		strides[a] = rapid.IntRange(1, 2).Draw(rt, "convS")
 		pads[a], pads[a+sp] = rapid.IntRange(0, 1).Draw(rt, "convP0"), rapid.IntRange(0, 1).Draw(rt, "convP1")
-		o := (in+pads[a]+pads[a+sp]-ks[a])/strides[a] + 1
+		dils[a] = 1
+		if ks[a] >= 2 && (ks[a]-1)*2+1 <= in+pads[a]+pads[a+sp] && rapid.IntRange(0, 2).Draw(rt, "convDil") == 0 {
+			dils[a] = 2
+		}
+		o := (in+pads[a]+pads[a+sp]-((ks[a]-1)*dils[a]+1))/strides[a] + 1
 		if o < 1 {
 			return false
 		}
@@ -655,7 +669,7 @@ func tConv(gg *ggraph, rt *rapid.T) bool {
 		ins = append(ins, b.name)
 		gg.feat("conv-bias-initializer")
 	}
-	gg.emit("Conv", ins, []gv{gg.out(out, x.dt, 0)}, attrInts("strides", i64s(strides)...), attrInts("pads", i64s(pads)...), attrInts("kernel_shape", i64s(ks)...))
+	gg.emit("Conv", ins, []gv{gg.out(out, x.dt, 0)}, attrInts("strides", i64s(strides)...), attrInts("pads", i64s(pads)...), attrInts("kernel_shape", i64s(ks)...), attrInts("dilations", i64s(dils)...))
 	gg.mixing, gg.weighted = true, true
 	return true
 }
@@ -736,6 +750,17 @@ func tRecurrent(gg *ggraph, rt *rapid.T) bool {
 	if kind == "GRU" && rapid.Bool().Draw(rt, "rnnLbr") {
 		attrs = append(attrs, attrI("linear_before_reset", 1))
 	}
+	if rapid.IntRange(0, 2).Draw(rt, "rnnActs") == 0 {
+		n := map[string]int{"RNN": 1, "GRU": 2, "LSTM": 3}[kind]
+		var acts []string
+		for i := 0; i < n; i++ {
+			acts = append(acts, rapid.SampledFrom([]string{"tanh", "sigmoid", "relu"}).Draw(rt, "rnnAct"))
+		}
+		if acts[0] == "relu" && kind != "RNN" {
+			acts[0] = "sigmoid" // a relu gate lets the state diverge
+		}
+		attrs = append(attrs, attrStrs("activations", acts...))
+	}
 	outs := []gv{gg.out([]int{S, 1, B, H}, tensor.Float32, 2), gg.out([]int{1, B, H}, tensor.Float32, 1)}
 	if kind == "LSTM" {
 		outs = append(outs, gg.out([]int{1, B, H}, tensor.Float32, 1))
@@ -810,6 +835,16 @@ func tPRelu(gg *ggraph, rt *rapid.T) bool {
 }
 
 func tScalerLinReg(gg *ggraph, rt *rapid.T) bool {
+	if !gg.opts.perSample && rapid.IntRange(0, 3).Draw(rt, "scalerRank1") == 0 {
+		// Scaler on a rank-1 input of F features (the broadcast of offset/scale is then the identity)
+		if v, ok := gg.pick(rt, "mlIn1", func(v gv) bool { return isF32(v) && len(v.shape) == 1 && !v.init }); ok {
+			f := v.shape[0]
+			gg.emit("Scaler", []string{v.name}, []gv{gg.out(cloneInts(v.shape), v.dt, v.batch)}, attrFs("offset", smallF32s(rt, f, 1, "off")...), attrFs("scale", smallF32s(rt, f, 2, "sc")...))
+			gg.weighted = true
+			gg.feat("scaler-rank1")
+			return true
+		}
+	}
 	v, ok := gg.pick(rt, "mlIn", func(v gv) bool { return isF32(v) && len(v.shape) == 2 && v.batch <= 0 && !v.init })
 	if !ok {
 		return false
@@ -827,11 +862,35 @@ func tScalerLinReg(gg *ggraph, rt *rapid.T) bool {
 	return true
 }
 
+// tOnInitializers: a node fed only by initializers (its value is "constant" unless one of the
+// initializers is also a graph input that the caller overrides).
+func tOnInitializers(gg *ggraph, rt *rapid.T) bool {
+	var f32 []string
+	for _, tp := range gg.inits {
+		if gg.initVals[tp.Name].Dtype() == tensor.Float32 && len(gg.initVals[tp.Name].Shape()) >= 1 {
+			f32 = append(f32, tp.Name)
+		}
+	}
+	if len(f32) == 0 {
+		return false
+	}
+	name := rapid.SampledFrom(f32).Draw(rt, "onInit")
+	w := gg.initVals[name]
+	gg.feat("node-fed-only-by-initializers")
+	if rapid.Bool().Draw(rt, "onInitBinary") {
+		other := gg.addInit(f32Init(rt, cloneInts(w.Shape()), 1, "onInitOther"))
+		gg.emit(rapid.SampledFrom([]string{"Add", "Mul", "Sub"}).Draw(rt, "onInitOp2"), []string{name, other.name}, []gv{gg.out(cloneInts(w.Shape()), tensor.Float32, -1)})
+		return true
+	}
+	gg.emit(rapid.SampledFrom([]string{"Abs", "Tanh", "Relu", "Atan"}).Draw(rt, "onInitOp"), []string{name}, []gv{gg.out(cloneInts(w.Shape()), tensor.Float32, -1)})
+	return true
+}
+
 var gTemplates = []gtemplate{tUnary, tBinaryInit, tBinaryValues, tCompareLogic, tGemm, tMatMul, tFlatten, tReshape, tTranspose,
-	tUnsqueezeSqueeze, tConcat, tSoftmax, tReduce, tGather, tShapeCastConst, tConv, tRecurrent, tExpandPRelu, tPRelu, tScalerLinReg}
+	tUnsqueezeSqueeze, tConcat, tSoftmax, tReduce, tGather, tShapeCastConst, tConv, tRecurrent, tExpandPRelu, tPRelu, tScalerLinReg, tOnInitializers}
 
 // gTemplateWeights: indices into gTemplates; the heavier operator families are drawn more often.
-var gTemplateWeights = []int{0, 1, 2, 3, 4, 4, 5, 5, 6, 7, 8, 9, 10, 11, 12, 13, 14, 15, 15, 15, 16, 16, 16, 16, 17, 18, 19}
+var gTemplateWeights = []int{0, 1, 2, 3, 4, 4, 5, 5, 6, 7, 8, 9, 10, 11, 12, 13, 14, 15, 15, 15, 16, 16, 16, 16, 17, 18, 19, 20}
 
 // genGraph builds a random graph.
 func genGraph(rt *rapid.T, opts ggOpts) *ggraph {
@@ -845,9 +904,19 @@ func genGraph(rt *rapid.T, opts ggOpts) *ggraph {
 		if opts.aliasRoutes {
 			kinds = []string{"NF", "NCHW", "NCHW", "NSI", "NSI", "NCL"}
 		}
+		if !opts.perSample {
+			kinds = append(kinds, "F1")
+		}
 		switch rapid.SampledFrom(kinds).Draw(rt, "inputKind") {
 		case "NF":
 			shape = []int{gg.batchN, min(genExtent(5).Draw(rt, "F"), 70)}
+			if !opts.perSample && rapid.IntRange(0, 39).Draw(rt, "hugeInput") == 0 {
+				// more than 4 096 elements (thresholds of in-place / parallel fast paths)
+				gg.batchN = rapid.SampledFrom([]int{64, 65, 70}).Draw(rt, "hugeN")
+				shape = []int{gg.batchN, rapid.SampledFrom([]int{65, 70, 100}).Draw(rt, "hugeF")}
+			}
+		case "F1":
+			shape = []int{rapid.IntRange(1, 6).Draw(rt, "F1")} // a plain feature vector (its only axis is declared symbolic)
 		case "NCHW":
 			shape = []int{gg.batchN, rapid.IntRange(1, 2).Draw(rt, "C"), rapid.IntRange(2, 5).Draw(rt, "H"), rapid.IntRange(2, 5).Draw(rt, "W")}
 		case "NCL":
@@ -882,6 +951,18 @@ func genGraph(rt *rapid.T, opts ggOpts) *ggraph {
 	// an initializer that is also listed as a graph input (the caller may override it)
 	if len(gg.inits) > 0 && !opts.perSample && rapid.IntRange(0, 2).Draw(rt, "shadow") == 0 {
 		tp := rapid.SampledFrom(gg.inits).Draw(rt, "shadowWhich")
+		if gg.feats["node-fed-only-by-initializers"] > 0 {
+			// prefer the input of a node that reads initializers only
+			for _, n := range gg.nodes {
+				if len(n.Input) > 0 && gg.initVals[n.Input[0]] != nil && gg.initVals[n.Input[0]].Dtype() == tensor.Float32 {
+					for _, cand := range gg.inits {
+						if cand.Name == n.Input[0] {
+							tp = cand
+						}
+					}
+				}
+			}
+		}
 		if gg.initVals[tp.Name].Dtype() == tensor.Float32 {
 			gg.shadowed[tp.Name] = true
 			gg.feat("initializer-as-input")
@@ -970,7 +1051,9 @@ func (gg *ggraph) feed(rt *rapid.T, n int) gonnx.Tensors {
 	out := gonnx.Tensors{}
 	for _, in := range gg.inputs {
 		s := cloneInts(in.shape)
-		s[in.batch] = n
+		if len(s) > 1 {
+			s[in.batch] = n
+		}
 		out[in.name] = mkT(s, smallF32s(rt, prod(s), 2, "feed"))
 	}
 	return out
